@@ -545,6 +545,14 @@ impl<'c> VisitMut for Rw<'c> {
                 self.cx.rule("R8.ksf_default");
                 *e = parse_quote!( ksf_default::<CS::Ksf>() );
             }
+            // R8: `X.as_slice() == Y` / `!=`  ->  slice_eq(X.as_slice(), Y)   (byte-slice equality, std semantics as a prelude contract)
+            Expr::Binary(b) if matches!(b.op, BinOp::Eq(_) | BinOp::Ne(_))
+                && (matches!(&*b.left, Expr::MethodCall(m) if m.method == "as_slice") || matches!(&*b.right, Expr::MethodCall(m) if m.method == "as_slice")) => {
+                let (l, r) = (&b.left, &b.right);
+                let ne = matches!(b.op, BinOp::Ne(_));
+                self.cx.rule("R8.slice_eq");
+                *e = if ne { parse_quote!( !slice_eq(#l, #r) ) } else { parse_quote!( slice_eq(#l, #r) ) };
+            }
             // R8: to_be_bytes
             Expr::MethodCall(mc) if mc.method == "to_be_bytes" && mc.args.is_empty() => {
                 mc.method = ident("to_be_bytes_v");
